@@ -1,4 +1,5 @@
-"""Obligation discharge: z3 (python API, process pool) with cvc5 taking z3's unknowns.
+"""Obligation discharge: z3 (python API, one forked process per task, hard-killed when it ignores its
+soft limit) with cvc5 taking z3's unknowns.
 
 An obligation (hyps, goal) is discharged iff  hyps /\\ hints /\\ not goal  is `unsat`.
 `sat` comes back with a model (name -> value) for replay; `unknown`/timeouts are never violations.
@@ -9,8 +10,6 @@ import os
 import subprocess
 import tempfile
 import time
-from concurrent.futures import ProcessPoolExecutor
-from fractions import Fraction
 
 import z3
 
@@ -58,7 +57,8 @@ def _z3_task(task):
     oid, smt, timeout_ms, seed = task
     t0 = time.time()
     try:
-        s = z3.Solver()
+        ctx = z3.Context()
+        s = z3.Solver(ctx=ctx)
         s.set("timeout", timeout_ms)
         s.set("random_seed", seed)
         s.from_string(smt)
@@ -73,9 +73,9 @@ def _z3_task(task):
 def _cvc5_task(task):
     oid, smt, timeout_ms, seed = task
     t0 = time.time()
-    with tempfile.NamedTemporaryFile("w", suffix=".smt2", delete=False, dir=os.environ.get("PYVC_TMP", None)) as f:
-        f.write("(set-logic ALL)\n(set-option :produce-models true)\n")
-        f.write(smt.replace("(check-sat)", "(check-sat)\n(get-model)"))
+    with tempfile.NamedTemporaryFile("w", suffix=".smt2", delete=False) as f:
+        f.write("(set-logic ALL)\n")
+        f.write(smt)
         path = f.name
     try:
         p = subprocess.run([CVC5, f"--tlimit={timeout_ms}", "--nl-ext-tplanes", path], capture_output=True, text=True,
@@ -84,7 +84,7 @@ def _cvc5_task(task):
         r = out[0].strip() if out else "unknown"
         if r not in ("sat", "unsat", "unknown"):
             r = "unknown"
-        return oid, r, time.time() - t0, None, (p.stderr or "")[:200]
+        return oid, r, time.time() - t0, None, (p.stderr or "").strip()[:200]
     except subprocess.TimeoutExpired:
         return oid, "unknown", time.time() - t0, None, "timeout"
     finally:
@@ -96,54 +96,99 @@ class Result:
         self.id, self.status, self.backend, self.secs, self.model, self.reason = oid, status, backend, secs, model, reason
 
 
-_pool = None
-
-
-def pool(workers=None):
-    global _pool
-    if _pool is None:
-        _pool = ProcessPoolExecutor(max_workers=workers or min(16, os.cpu_count() or 4))
-    return _pool
+_live = set()
 
 
 def shutdown():
-    global _pool
-    if _pool is not None:
-        procs = list(getattr(_pool, "_processes", {}).values())
-        _pool.shutdown(wait=False, cancel_futures=True)
-        for pr in procs:
-            try:
+    for pr in list(_live):
+        try:
+            pr.kill()
+        except Exception:  # noqa: BLE001
+            pass
+    _live.clear()
+
+
+def _child(fn, task, conn):
+    try:
+        conn.send(fn(task))
+    except BaseException as e:  # noqa: BLE001
+        try:
+            conn.send((task[0], "error", 0.0, None, f"{type(e).__name__}: {e}"))
+        except Exception:  # noqa: BLE001
+            pass
+    finally:
+        conn.close()
+        os._exit(0)
+
+
+def _run_pool(fn, tasks, workers, hard_s):
+    """fork one process per task (at most `workers` at a time); a task that ignores its soft timeout is
+    killed after hard_s seconds and reported as unknown (never as a verdict)"""
+    import multiprocessing as mp
+
+    ctx = mp.get_context("fork")
+    pending = list(reversed(tasks))
+    running = {}
+    out = []
+    while pending or running:
+        while pending and len(running) < workers:
+            t = pending.pop()
+            pc, cc = ctx.Pipe(duplex=False)
+            pr = ctx.Process(target=_child, args=(fn, t, cc), daemon=True)
+            pr.start()
+            cc.close()
+            _live.add(pr)
+            running[pr] = (t, pc, time.time())
+        done = []
+        for pr, (t, pc, t0) in running.items():
+            if pc.poll(0):
+                try:
+                    out.append(pc.recv())
+                except EOFError:
+                    out.append((t[0], "error", time.time() - t0, None, "worker died"))
+                done.append(pr)
+            elif not pr.is_alive():
+                if pc.poll(0.05):
+                    out.append(pc.recv())
+                else:
+                    out.append((t[0], "error", time.time() - t0, None, "worker died"))
+                done.append(pr)
+            elif time.time() - t0 > hard_s:
                 pr.kill()
-            except Exception:  # noqa: BLE001
-                pass
-        _pool = None
+                out.append((t[0], "unknown", time.time() - t0, None, "hard timeout (solver ignored its soft limit)"))
+                done.append(pr)
+        for pr in done:
+            t, pc, t0 = running.pop(pr)
+            pc.close()
+            pr.join(timeout=1)
+            _live.discard(pr)
+        if not done:
+            time.sleep(0.01)
+    return out
 
 
 def discharge(tasks, timeout_ms=60000, seed=0, cvc5_fallback=True, cvc5_recheck=False, workers=None):
     """tasks: list of (oid, smt2 text, expect).  returns {oid: Result}; status in
     proved | refuted | unknown | error  (for expect == 'sat' tasks: covered | vacuous | unknown)."""
     results = {}
+    workers = workers or min(16, os.cpu_count() or 4)
     expect = {oid: exp for oid, _, exp in tasks}
-    p = pool(workers)
-    futs = [p.submit(_z3_task, (oid, smt, timeout_ms, seed)) for oid, smt, _ in tasks]
     smts = {oid: smt for oid, smt, _ in tasks}
+    hard = timeout_ms / 1000 * 1.25 + 5
     pending_cvc5 = []
-    for f in futs:
-        oid, r, secs, model, reason = f.result()
+    for oid, r, secs, model, reason in _run_pool(_z3_task, [(oid, smt, timeout_ms, seed) for oid, smt, _ in tasks], workers, hard):
         if r == "unknown" and cvc5_fallback:
             pending_cvc5.append((oid, secs))
             continue
         results[oid] = Result(oid, r, "z3", secs, model, reason)
     if pending_cvc5:
-        futs = [(oid, secs, p.submit(_cvc5_task, (oid, smts[oid], timeout_ms, seed))) for oid, secs in pending_cvc5]
-        for oid, secs0, f in futs:
-            _, r, secs, model, reason = f.result()
-            results[oid] = Result(oid, r, "cvc5" if r != "unknown" else "z3+cvc5", secs0 + secs, model, reason)
+        secs0 = dict(pending_cvc5)
+        for oid, r, secs, model, reason in _run_pool(_cvc5_task, [(oid, smts[oid], timeout_ms, seed) for oid, _ in pending_cvc5],
+                                                    workers, hard + 10):
+            results[oid] = Result(oid, r, "cvc5" if r != "unknown" else "z3+cvc5", secs0[oid] + secs, model, reason)
     if cvc5_recheck:
         todo = [oid for oid, res in results.items() if res.status == "unsat" and res.backend == "z3" and expect[oid] == "unsat"]
-        futs = [(oid, p.submit(_cvc5_task, (oid, smts[oid], timeout_ms, seed))) for oid in todo]
-        for oid, f in futs:
-            _, r, secs, _, _ = f.result()
+        for oid, r, secs, _, _ in _run_pool(_cvc5_task, [(oid, smts[oid], min(timeout_ms, 120000), seed) for oid in todo], workers, 140):
             results[oid].recheck = r
             if r == "sat":
                 results[oid].status = "error"
